@@ -224,7 +224,8 @@ def run_group(pid, specdir, g, scratch, tier, stack, want_trace=None):
             return res
         cb += ['--unwind', str(g['unwind'] if tier == 'quick' or not g.get('unwind_thorough') else g['unwind_thorough']),
                '--unwinding-assertions']
-        res['cls'] = 'bounded'
+        if not g.get('exact_unwind'):
+            res['cls'] = 'bounded'   # exact_unwind: the harness fixes the loop-controlling input; passing unwinding assertions make it complete
     cb += g.get('cbmc_flags', [])
     if tier == 'thorough' and g.get('thorough_flags'):
         cb += g['thorough_flags']
@@ -475,7 +476,8 @@ def run_property(pid, tier, flags, only, scratch, t0, seed, evidence_path):
             if len(replay_files) >= 6:
                 lines.append('VIOLATION property=%s replay=%s obligation="%s" no-failing-input-found' % (
                     pid, replay_files[0]['path'], o['key']))
-                if len(lines) > 40:
+                if len(lines) > 14:
+                    lines.append('... %d failing obligations in total (see evidence coverage.failed_obligations)' % len(violations))
                     break
                 continue
             done_groups.add((o['group'], o['cls'] == 'canary'))
